@@ -376,7 +376,7 @@ def gen_case(rng, desc, direction, max_ops=6):
                         "sel": rng.randrange(40)})
             if desc["linkdata"]:
                 npairs += 1
-    return {"pair": desc["name"], "variant": desc["variant"], "dir": direction, "ops": ops}
+    return {"pair": desc["name"], "variant": desc["variant"], "dir": direction, "ops": ops, "lazy": rng.random() < 0.5}
 
 
 def witness(desc):
@@ -499,6 +499,13 @@ class Run:
                 self.fail(f"after {where}: {lab} of pair {i} records ({q[lab]['idA']}, {q[lab]['idB']}), entities are ({q['a']}, {q['b']})",
                           f"{where}-ids-{'live' if lab.startswith('live') else 'stored'}")
         for s, o in (("A", "B"), ("B", "A")):
+            if self.case.get("lazy") and where != "final":
+                # 'lazy' cases do not read the partner attribute of the live objects between operations (reading it
+                # caches the link on the object): the live resolution is checked once, at the end of the case
+                if stored[(p["ws"], p[s])][1] != p[o]:
+                    self.fail(f"after {where}: side {s} of pair {i}, read from the file, resolves its partner to {stored[(p['ws'], p[s])][1]}",
+                              f"{where}-unresolved-file")
+                continue
             try:
                 live_partner = partner_of(self.desc, p["ents"][s], s)
             except Exception as e:  # noqa: BLE001
@@ -706,6 +713,10 @@ class Run:
             if not ok:
                 break
             prev = self.snaps[-1] if self.snaps else None
+        if self.case.get("lazy") and prev is not None and self.snaps:
+            snap, stored = self.snapshot()
+            for i in self.linked_pairs(snap):
+                self.check_ids(i, snap, stored, "final")
 
     def model_line(self, wt):
         return {"m": "pair", "op": "run", "wt": wt, "carry": self.desc["kind"] == "em", "keys": sorted(self.keys),
